@@ -21,6 +21,7 @@ func recordConcWrite(args []string) error {
 	out := fs.String("out", "", "trace file")
 	seed := fs.Int64("seed", 1, "seed")
 	totals := fs.String("totals", "40,999,1001,2003", "row totals")
+	cold := fs.Int("cold", 40, "cold-start trials (small totals, all goroutines released together)")
 	fs.Parse(args)
 	w, err := vx.NewNDWriter(*out)
 	if err != nil {
@@ -33,13 +34,31 @@ func recordConcWrite(args []string) error {
 	for _, s := range splitInts(*totals) {
 		tot = append(tot, s)
 	}
+	type cfg struct {
+		i, n int
+		kind string
+		cold bool // many goroutines released together on a fresh writer: the first rows introduce the columns at the same moment
+	}
+	var cfgs []cfg
+	for t := 0; t < *cold; t++ {
+		cfgs = append(cfgs, cfg{t, 24 + 8*(t%4), []string{"mem", "big"}[t%2], true})
+	}
 	for i, n := range tot {
 		for _, kind := range []string{"mem", "big"} {
+			cfgs = append(cfgs, cfg{i, n, kind, false})
+		}
+	}
+	for _, c := range cfgs {
+		{
+			i, n, kind := c.i, c.n, c.kind
 			rng := r.rng
 			// values: ranks 1..8 for the shared columns, the tag column uses n distinct values
 			vals := vx.PickSorted(rng, nil, n+20, func(i int) string { return "t" + padInt(i) })
 			// columns 4.. : only the very wide rows of the uneven tail carry them
-			const wide = 3000
+			wide := 3000
+			if c.cold {
+				wide = 0
+			}
 			cols := []string{"a", "b", "tag"}
 			for k := 0; k < wide; k++ {
 				cols = append(cols, "w"+padInt(k))
@@ -51,6 +70,10 @@ func recordConcWrite(args []string) error {
 				continue
 			}
 			ng := []int{2, 4, 8, 16, 32}[(i+rng.Intn(5))%5]
+			if c.cold {
+				ng = []int{8, 16, 24}[i%3]
+			}
+			start := make(chan struct{})
 			rows := make([]vx.Row, n)
 			for k := range rows {
 				row := vx.Row{{1, 1 + rng.Intn(4)}, {3, k + 1}}
@@ -69,6 +92,7 @@ func recordConcWrite(args []string) error {
 				wg.Add(1)
 				go func(g int) {
 					defer wg.Done()
+					<-start
 					for k := g; k < n; k += ng {
 						id, err := wr.AddRow(d.RowMap(rows[k]))
 						if err != nil {
@@ -78,12 +102,13 @@ func recordConcWrite(args []string) error {
 					}
 				}(g)
 			}
+			close(start)
 			wg.Wait()
 			// uneven tail: a very wide row enters AddRow first, a narrow one a moment later and overtakes it wherever
 			// the writer works outside its lock; the last rows decide what the row counter ends up as
 			tail := make([]item, 0, 6)
 			var tmu sync.Mutex
-			for round := 0; round < 3; round++ {
+			for round := 0; round < 3 && !c.cold; round++ {
 				wideRow := vx.Row{{1, 1 + rng.Intn(4)}, {3, n + 2*round + 1}}
 				for k := 0; k < wide; k++ {
 					wideRow = append(wideRow, [2]int{4 + k, 1})
@@ -147,7 +172,9 @@ func recordConcWrite(args []string) error {
 			for t := n + 1; t <= n+6; t++ {
 				r.exec(1, idx, vx.Query{E: &vx.Expr{Op: "eq", Col: 3, Val: t}})
 			}
-			r.exec(1, idx, vx.Query{E: &vx.Expr{Op: "not", E: &vx.Expr{Op: "eq", Col: 4, Val: 1}}})
+			if !c.cold {
+				r.exec(1, idx, vx.Query{E: &vx.Expr{Op: "not", E: &vx.Expr{Op: "eq", Col: 4, Val: 1}}})
+			}
 			r.exec(1, idx, vx.Query{E: &vx.Expr{Op: "not", E: &vx.Expr{Op: "eq", Col: 3, Val: n + 6}}})
 			r.close(1, idx)
 		}
